@@ -345,7 +345,10 @@ class MOLGP:
                         if deriv:
                             dkdX0T[:, s][:, :, cond[s]] = 0.0
                 else:
-                    cond = X0T[:, 0].sum(0) < 1e-6
+                    # X0T[s, 0] is the density feature nspin * n_s, so the mean
+                    # over spin is the total density for nspin = 1 and 2 alike
+                    # (same convention as MappedDFTKernel).
+                    cond = X0T[:, 0].mean(0) < 1e-6
                     m[..., cond] = 0.0
                     dm[..., cond] = 0.0
                     a[..., cond] = 0.0
@@ -613,7 +616,11 @@ class MOLGP2(MOLGP):
                 # TODO setting nan to zero could cover up more serious issues,
                 # but it is the easiest way to take care of small density
                 # training data without editing functions used at eval-time.
-                cond = rho_tuple[0] < 1e-6
+                # rho_tuple[0][s] is the spin density n_s. Channel s of a SEP
+                # kernel is evaluated for the density nspin * n_s, so that is
+                # what is screened (same convention as MappedDFTKernel2 and as
+                # the nspin = 1 representation of a closed-shell system).
+                cond = rho_tuple[0].shape[0] * rho_tuple[0] < 1e-6
                 if kernel.mode == "SEP":
                     m[cond] = 0.0
                     a[cond] = 0.0
@@ -624,18 +631,17 @@ class MOLGP2(MOLGP):
                             da[s][:, cond[s]] = 0.0
                             dkdX0T[:, s][:, :, cond[s]] = 0.0
                 else:
-                    if cond.shape[0] == 1:
-                        scond = cond[0]
-                    else:
-                        scond = np.logical_and(cond[0], cond[1])
+                    # NPOL/POL energies depend on the total density; cut the
+                    # value and all its derivatives with the same mask.
+                    scond = rho_tuple[0].sum(0) < 1e-6
                     m[..., scond] = 0.0
                     a[..., scond] = 0.0
                     k[..., scond] = 0.0
                     if deriv:
                         for s in range(X0T.shape[0]):
-                            dkdX0T[:, s][:, :, cond[s]] = 0.0
-                            dm[s][:, cond[s]] = 0.0
-                            da[s][:, cond[s]] = 0.0
+                            dkdX0T[:, s][:, :, scond] = 0.0
+                            dm[s][:, scond] = 0.0
+                            da[s][:, scond] = 0.0
                 if kernel.mode == "SEP":
                     km = (k * m).sum(1)
                     if deriv:
